@@ -629,6 +629,9 @@ fn set_widths_and_isatty(opt: &mut cli::Opt) {
         Some(width) => {
             let width = parse_width_specifier(width, opt.computed.available_terminal_width)
                 .unwrap_or_else(|err| fatal(format!("Invalid value for width: {err}")));
+            // No terminal is wider than that (the kernel counts columns in 16 bits); decoration
+            // lines and side-by-side panels are allocated at this width.
+            let width = width.min(u16::MAX as usize);
             (cli::Width::Fixed(width), true)
         }
         None => {
